@@ -2,6 +2,7 @@
    validity and real memory safety are runtime matters (harness, child processes); the logic
    — handle state machine, null checks as written, callback adapter under write_all, what a
    callback failure does to the call and to the archive — is the model CApi.v. *)
+From MLA Require Import Limit.
 From MLA Require Import Base Stream Blocks Writer CApi CApiProofs.
 From MLAGen Require Src.
 Open Scope N_scope.
@@ -15,18 +16,18 @@ Proof. exact nullchecks_src. Qed.
 
 (* no program of C calls — any handles, NULL anywhere, handles the interface cleared, double
    close, use after close, any callback behaviour — reaches a crash site of the model *)
-Theorem C20_no_crash : forall FNMAX TS TC TA TE H order cs s,
+Theorem C20_no_crash {LIM : Limit} : forall FNMAX TS TC TA TE H order cs s,
   forallb is_ret (snd (capi_run FNMAX TS TC TA TE H order true s cs)) = true.
 Proof. exact capi_no_crash. Qed.
 
 (* a call naming a NULL / never assigned / cleared handle returns BadAPIArgument, state unchanged *)
-Theorem C20_null_handles : forall FNMAX TS TC TA TE H order s c,
+Theorem C20_null_handles {LIM : Limit} : forall FNMAX TS TC TA TE H order s c,
   null_call s c = true -> capi_step FNMAX TS TC TA TE H order true s c = (s, Ret BadAPIArgument).
 Proof. exact capi_null_unchanged. Qed.
 
 (* the archives closed with Success are exactly runs of the Rust writer model on the operations
    of the successful C calls (C01/C09's theorems about wrun then apply) *)
-Theorem C20_refines_rust : forall FNMAX TS TC TA TE H order cs,
+Theorem C20_refines_rust {LIM : Limit} : forall FNMAX TS TC TA TE H order cs,
   let s := fst (capi_run FNMAX TS TC TA TE H order true (c_init) cs) in
   Forall (fun ops => all_ok (snd (wrun FNMAX TS TC TA TE H order w_init ops)) = true /\ exists ops0, ops = ops0 ++ [OFinalize]) (c_done s) /\
   (forall j ar, c_ar s j = Some ar -> a_poison ar = false ->
@@ -46,7 +47,7 @@ Proof. exact write_all_ok_inv. Qed.
 
 (* callback failure => error status, in every phase (including brotli's stream finish, since
    the repair of K20-FINISH) *)
-Theorem C20_cb_failure : forall FNMAX TS TC TA TE H order s c s' ph,
+Theorem C20_cb_failure {LIM : Limit} : forall FNMAX TS TC TA TE H order s c s' ph,
   capi_step FNMAX TS TC TA TE H order true s c = (s', Ret Success) -> io_of c = IoFail ph ->
   no_io_call c = true.
 Proof. exact capi_cb_failure. Qed.
@@ -59,14 +60,14 @@ Theorem C20_refuted_eintr :
 Proof. exact write_all_eintr_swallowed. Qed.
 
 (* non-vacuity: the pre-repair code (D16) crashes in the model; a complete successful program *)
-Example C20_D16_old_code : forall FNMAX TS TC TA TE H order,
+Example C20_D16_old_code {LIM : Limit} : forall FNMAX TS TC TA TE H order,
   exists cs, forallb is_ret (snd (capi_run FNMAX TS TC TA TE H order false (c_init) cs)) = false.
 Proof. exact D16_old_code_crashes. Qed.
 Example C20_nonvacuous :
   let cs := [CConfigNew (RSlot 0); CAddPub (RSlot 0) (KValid 1); CArchiveNew (RSlot 0) true true (RSlot 0) IoOk;
              CFileNew (RSlot 0) (Some [97]) (RSlot 0) IoOk; CAppend (RSlot 0) (RSlot 0) (Some [1; 2; 3]) 3 IoOk;
              CFileClose (RSlot 0) (RSlot 0) IoOk; CArchiveClose (RSlot 0) IoOk; CArchiveClose (RSlot 0) IoOk] in
-  let r := capi_run 1024 0 1 2 3 (fun _ => []) (fun f => f) true c_init cs in
+  let r := capi_run (LIM := 536870912) 1024 0 1 2 3 (fun _ => []) (fun f => f) true c_init cs in
   snd r = [Ret Success; Ret Success; Ret Success; Ret Success; Ret Success; Ret Success; Ret Success; Ret BadAPIArgument]
   /\ c_done (fst r) = [[OStart [97]; OAppend 0 3 [1; 2; 3]; OEnd 0; OFinalize]].
 Proof. vm_compute. split; reflexivity. Qed.
@@ -108,7 +109,7 @@ Theorem C20_extract_delivers :
     let blocks := w_out sf in
     let nb := nblocks BLOCK (len blocks) in
     let a := ser_header (to_persistent pubk dh kdf wenc wtag cfg) ++ wire_of CHUNK BLOCK ksf tagf cfg blocks in
-    wrun FNMAX TS TC TA TE H order w_init (ops ++ [OFinalize]) = (sf, rs) ->
+    wrun (LIM := LIMIT) FNMAX TS TC TA TE H order w_init (ops ++ [OFinalize]) = (sf, rs) ->
     Forall (fun r => is_ok r = true) rs -> forallb op_utf8 ops = true ->
     len blocks < 2 ^ 64 -> len (ser_footer_map (order (w_footer sf))) < 2 ^ 32 ->
     (wc_compress cfg = true ->
@@ -260,7 +261,7 @@ Theorem C20_tie_cbin_sk : forall (C : cbsrc) (hs : bool) (s : cb_st C) (w : when
 Proof. exact cbin_sk_src. Qed.
 
 (* the eleven writing-side entry points = capi_step, under the trusted primitive table model_prims *)
-Theorem C20_tie_entry_points : forall FNMAX TS TC TA TE H order,
+Theorem C20_tie_entry_points {LIM : Limit} : forall FNMAX TS TC TA TE H order,
   let MP := model_prims FNMAX TS TC TA TE H order in
   let step := capi_step FNMAX TS TC TA TE H order true in
   (forall s out, sim (Src3a.mla_config_default_new MP s out) (step s (CConfigNew out))) /\
@@ -297,7 +298,7 @@ Theorem C20_tie_info : forall LIMIT (C : cbsrc) (s0 : cb_st C) (rcb info_out : b
   = roarchive_info LIMIT rcb info_out C s0.
 Proof. intros. apply roarchive_info_src. Qed.
 (* ... and their handle logic in the table of capi_step, for EVERY behaviour of the library calls and callbacks *)
-Theorem C20_tie_extract_handles :
+Theorem C20_tie_extract_handles {LIM : Limit} :
   forall FNMAX TS TC TA TE H order SrcT MlaT mk fc lf srt fcb_ le s cfg rcb scb fcb stt,
   let x := Src3a.mla_roarchive_extract rcfg SrcT MlaT mk fc lf srt fcb_ le (mem_of s cfg) rcb scb fcb in
   Src3a.xs_res x = Ret stt ->
@@ -306,16 +307,16 @@ Proof. intros. apply mla_roarchive_extract_handles_src. assumption. Qed.
 
 (* C20_no_crash / C20_null_handles carried to the TRANSLATED entry points: in every state of the handle table
    each translated function returns a status — never NullDeref, never DanglingHandle, never a writer crash site *)
-Theorem C20_tie_no_crash_src : forall FNMAX TS TC TA TE H order s c,
+Theorem C20_tie_no_crash_src {LIM : Limit} : forall FNMAX TS TC TA TE H order s c,
   is_ret (snd (src_step FNMAX TS TC TA TE H order s c)) = true.
 Proof. exact src_step_no_crash. Qed.
-Theorem C20_tie_null_handles_src : forall FNMAX TS TC TA TE H order s c, null_call s c = true ->
+Theorem C20_tie_null_handles_src {LIM : Limit} : forall FNMAX TS TC TA TE H order s c, null_call s c = true ->
   snd (src_step FNMAX TS TC TA TE H order s c) = Ret BadAPIArgument /\ cst_eq (fst (src_step FNMAX TS TC TA TE H order s c)) s.
 Proof. exact src_step_null. Qed.
 
 (* non-vacuity: the translated functions run — create a configuration, then close twice an archive slot *)
 Example C20_tie_nonvacuous :
-  let MP := model_prims 1024 0 1 2 3 (fun _ => []) (fun f => f) in
+  let MP := model_prims (LIM := 536870912) 1024 0 1 2 3 (fun _ => []) (fun f => f) in
   let '(s1, r1) := Src3a.mla_config_default_new MP c_init (RSlot 0) in
   let '(s2, r2) := Src3a.mla_config_add_public_keys MP s1 (RSlot 0) (KValid 1) in
   let '(s3, r3) := Src3a.mla_archive_new MP s2 (RSlot 0) true true (RSlot 1) IoOk in
